@@ -354,6 +354,12 @@ def judge(ctx, case):
             watched = []          # immutable bitstrings met earlier in this sequence: they must never change later either
             for st in case['calls']:
                 name, aspecs, kspecs = st
+                size_now = len(recv.data) if isinstance(recv, Array) else len(recv) if isinstance(recv, Bits) else 0
+                if size_now > 1500000:
+                    # earlier steps (s += s, s *= n, replace with a long operand) have multiplied the receiver beyond what a sequence of
+                    # further calls can be run on in reasonable time: the rest of this sequence is not executed
+                    ctx.op('sequence-cut:receiver-too-large')
+                    break
                 set_before = util.get_options()
                 args = []
                 kw = {}
